@@ -152,7 +152,9 @@ def confirmed(dst):
     applies = subprocess.run(["git", "-C", "/repo", "apply", "--check", os.path.join(dst, "patch.diff")]).returncode == 0
     head = subprocess.run(["git", "-C", "/repo", "rev-parse", "--short", "HEAD"], capture_output=True, text=True).stdout.strip()
     return ver, bool(ok), applies, {
-        "patch_applies_to_repo_head": applies, "repo_head": head, "demo_passes_on_pristine_fails_on_patched": bool(ok),
+        "patch_applies_to_repo_head": applies, "repo_head": head,
+        "verified_against_repo_head": (re.search(r"repo_head: (\S+)", ver).group(1) if re.search(r"repo_head: (\S+)", ver) else "an earlier HEAD (see date)"),
+        "demo_passes_on_pristine_fails_on_patched": bool(ok),
         "repository_tests_still_pass_with_change": "57 of 57 baseline tests" if "57 of 57" in ver else "see verify.txt",
         "verified_on": (re.search(r"date: (.*)", ver).group(1) if re.search(r"date: (.*)", ver) else None),
         "how": "tools/verify_seeded.sh (scratch copies of /repo HEAD; demo.py on both; pytest with --ignore=tests/test_gdb.py under flock)"}
